@@ -178,8 +178,8 @@ func (t TShape) depth() int {
 }
 
 type tlitCase struct {
-	T    TShape `json:"type"`
-	Self string `json:"self"`
+	T    TShape   `json:"type"`
+	Self string   `json:"self"`
 	Pre  []string `json:"pre,omitempty"` // packages the target file imported before (clashing names already bound)
 	out  string
 	imps string
